@@ -26,6 +26,7 @@ REVERTS = {
     'fix: inserted/appended nodes were stored': ('revert-d20-unwrap', 'C15'),
     'fix: .text skipped text': ('revert-d16-text-str', 'C15'),
     'fix: TexExpr.insert resolves a negative index': ('revert-d22-negative-insert', 'C05 C15'),
+    'fix: TexArgs keeps its proxy list in step': ('revert-d23-proxy-by-position', 'C18'),
 }
 
 
@@ -56,6 +57,13 @@ def main():
             if subj.startswith(prefix):
                 d = subprocess.run(['git', '-C', '/repo', 'diff', h, h + '^'],
                                    capture_output=True, text=True).stdout
+                # a revert that later fixes of the same lines made inapplicable
+                # is re-expressed in mutant_table.py instead
+                chk = subprocess.run(['git', '-C', '/repo', 'apply', '--check', '-'],
+                                     input=d, capture_output=True, text=True)
+                if chk.returncode != 0:
+                    print('SKIP %s: the reverse diff of %s no longer applies' % (name, h[:7]))
+                    continue
                 with open(os.path.join(out, name + '.patch'), 'w') as fh:
                     fh.write('# breaks: %s\n# reverts %s %s\n' % (breaks, h[:7], subj))
                     fh.write(d)
